@@ -98,24 +98,30 @@ def line_at(path, off, bgzf):
 
 def write_text(path, text, storage="plain", block=60000):
     if storage == "plain":
-        with open(path, "w") as f:
+        with open(path, "w", encoding="utf-8") as f:
             f.write(text)
     elif storage == "bgzf":
         write_bgzf(path, text.encode(), block)
     elif storage == "gz":
-        with gzip.open(path, "wt") as f:
+        with gzip.open(path, "wt", encoding="utf-8") as f:
             f.write(text)
     else:
         raise ValueError(storage)
+
+
+def eol_for(key):
+    """input files end with a newline in two cases of three; in the third the last record is not newline-terminated
+    (valid, and what some pipelines produce) - chosen by a stable hash of the case id"""
+    return "" if zlib.crc32(str(key).encode()) % 3 == 0 else "\n"
 
 
 def read_text(path):
     with open(path, "rb") as f:
         magic = f.read(2)
     if magic == b"\x1f\x8b":
-        with gzip.open(path, "rt") as f:
+        with gzip.open(path, "rt", encoding="utf-8") as f:
             return f.read()
-    with open(path) as f:
+    with open(path, encoding="utf-8") as f:
         return f.read()
 
 
